@@ -55,6 +55,9 @@ def render(spec):
                 L.append("export n%d: int = %d" % (j, 10 + j))
                 L.append("export tot%d: int = 0" % j)
                 L.append("export type T%d int" % j)
+                if j % 2 == 1:
+                    # an export whose name coincides with a built-in method name
+                    L.append("export to_str: fn(int) -> str = fn(q: int) -> str {\n\tmodify cnt = cnt + 1\n\tmodify tot%d = tot%d + 1\n\tcell%d[0] += 1\n\treturn \"<%d:\" + q + \">\"\n}" % (j, j, j, j))
                 L.append("export bump%d: fn() -> int = fn() -> int {\n\tmodify cnt = cnt + 1\n\tmodify tot%d = tot%d + 1\n\tcell%d[0] += 1\n\treturn cnt\n}" % (j, j, j, j))
                 L.append("export peek%d: fn() -> int = fn() -> int {\n\treturn cnt\n}" % j)
                 # a factory that builds its closure at CALL time (possibly while an importer's top level is running)
@@ -71,7 +74,9 @@ def render(spec):
                     L.append("import bump%d, peek%d, cell%d, mkpeek%d from %s" % (j, j, j, j, p))
             elif k == "use":
                 j, form, what = st[1], st[2], st[3]
-                if what == "mk":
+                if what == "tostr":
+                    L.append("print %s.to_str(%d)" % (mod_name(j), 7))
+                elif what == "mk":
                     tmp[0] += 1
                     if form == "mod":
                         L.append("k%d = %s.mkpeek%d()\nprint k%d()" % (tmp[0], mod_name(j), j, tmp[0]))
@@ -150,6 +155,10 @@ def render(spec):
                     out.append(str(s.cnt))
                 elif what == "mk":
                     out.append(str(s.cnt * 100 + s.cnt))
+                elif what == "tostr":
+                    s.cnt += 1
+                    s.cell += 1
+                    out.append("<%d:7>" % j)
                 else:
                     out.append(str(s.cell))
             elif k == "say":
@@ -229,7 +238,8 @@ def generate(rng, max_mods=5, negative=False):
                 imported.setdefault(j, []).append(f)
                 if f != "type" and not bare[j]:
                     for _ in range(rng.range(0, 2)):
-                        stmts.append(["use", j, f, rng.choice(["bump", "bump", "peek", "cell", "mk"] + (["tot", "tot"] if f == "mod" else []))])
+                        stmts.append(["use", j, f, rng.choice(["bump", "bump", "peek", "cell", "mk"] + (["tot", "tot"] if f == "mod" else [])
+                                                              + (["tostr", "tostr"] if (f == "mod" and j % 2 == 1) else []))])
             # interleave uses of earlier imports
             usable = sorted(j for j in imported if not bare[j] and [f for f in imported[j] if f != "type"])
             if usable and rng.chance(1, 2):
@@ -287,7 +297,9 @@ def valid(spec):
             elif st[0] == "use":
                 if (st[1], st[2]) not in seen or not any(x[0] == "state" for x in spec["mods"][st[1]]["stmts"]):
                     return False
-                if st[3] == "tot" and st[2] != "mod":
+                if st[3] in ("tot", "tostr") and st[2] != "mod":
+                    return False
+                if st[3] == "tostr" and st[1] % 2 != 1:
                     return False
             elif st[0] == "defvia":
                 if (st[1], "mod") not in seen or not state:
